@@ -14,7 +14,8 @@ RULE = ("each case = one real System built by the real SystemBuilder (build + in
         "10 % add a call after the handle was consumed. Ops outside the input guard PosOps (an open request or a market item with a price or quantity <= 0) are answered `bad-op` by "
         "harness and drivers alike (corpus/C20S/review_b.ops). Thorough additionally enumerates every op sequence of length <= 3 over 8 symbols (market trade "
         "with reaction, trading on, trading off, open, close, cancel_orders, settle, sleep 50) for {iter,stream} x {audit on,off} at latency 50 ms "
-        "(2 340 cases). A case is distinct by the SHA-1 of its op lines and non-trivial when the implementation's observation blocks differ")
+        "(2 340 cases). An input-domain family (cases d<n>, one per 8 random cases, own PRNG stream; hand cases in corpus/C20S/dom_multi_request.ops) draws what the random cases never do: quote balances 0 / 100 / 2e12 and base balances 0 / 1 "
+        "(exact fits), latencies 1 / 500 ms, prices 0.5 / 99.99 / 1e12, quantities 3 / 1e-8, up to THREE open and TWO cancel requests in one call. A case is distinct by the SHA-1 of its op lines and non-trivial when the implementation's observation blocks differ")
 ASSUMPTIONS = [
     "current-thread tokio runtime with a paused clock; the harness never relies on auto-advance: virtual time moves only in `sleep` ops "
     "(mock exchange latency 0 / 50 / 200 ms; the 1 s request timeout of the execution manager and the reconnection back-off are never reached)",
